@@ -141,6 +141,18 @@ PROPS = {
         "trusted_base": ["lock/atomic event programs regenerated from mimetype.go / mime.go (Gen/Sync.lean); abstract RWMutex semantics (Model/Sync.lean); tie: exact event lists + race-detector stress + limit-flip ops"],
         "partial": ["the theorem is about the locking protocol; data races inside sync, torn reads, and real schedules are explored with -race, not proved"],
     },
+    "C02": {
+        "slices": ["tree", "C02", "C14"],
+        "relevant_diff": lambda part, op: part.startswith("DIFF fmt") or part.startswith("DIFF parse") or part.startswith("DIFF leaf") or part.startswith("DIFF treeeq") or part.startswith("DIFF reader"),
+        "assumptions": COMMON_ASSUME + ["mime.FormatMediaType / ParseMediaType hand-modelled byte-wise (go1.23 source); ASCII white space only"],
+        "trusted_base": ["clone/cloneHierarchy/match hand-modelled; registered names regenerated; tie: fmt/parse ops (all 1- and 2-byte labels + hostile labels), res ops with the real mime.ParseMediaType as oracle"],
+    },
+    "C15": {
+        "slices": ["tree", "C15"],
+        "relevant_diff": lambda part, op: part.startswith("DIFF is") or part.startswith("DIFF eqany") or part.startswith("DIFF parse") or part.startswith("DIFF tree"),
+        "assumptions": COMMON_ASSUME + ["decorations are ASCII (case, ASCII white space, well-formed parameters); unicode.IsSpace beyond ASCII is not modelled"],
+        "trusted_base": ["Is / EqualsAny / lookup hand-modelled over the ParseMediaType model; names and aliases regenerated; tie: is/eqany/parse/res ops over every registered name and alias x decorations"],
+    },
     "C07": {
         "slices": ["tree", "C07", "corpus"],
         "relevant_diff": dets_only("Text"),
